@@ -6,6 +6,7 @@
  *        pre: 8-bit images written into the file first; edits: "-" or indices of datasets whose attributes a later
  *        SD session changes; meta: "-" or s<dim>=<hex>,t=<label>;<unit>;<format>,r=<max>;<min>
  *   <id> img <writer> <pre> <edits> <pad> <ril> <n> { <x> <y> <ncomp> <nt> <il> <comp> <hex> <palhex|-> }*n     writer: df | gr
+ *   <id> dfsdseq <nops> { D rank dims.. | N nt | S dim hex|- | T l u f | X dim l u f | R max min | A hex | C }*   DFSD calls as given
  *   <id> pal <n> <hex768>*n                                         DFPaddpal
  *   <id> ann <writer> <n> { <fl|fd|ol|od> <tag> <ref> <hex> }*n     writer: dfan | an
  *   <id> raw <views> <ril> <n> { <tag> <ref> <hex|-> }*n            Hputelement of model-made records
@@ -561,12 +562,20 @@ static void wr_img(const char *writer, int n, int pre, const char *edits)
         for (int k = 0; k < n; k++) {
             int r0 = 0, r1;
             if (im[k].ncomp == 1) {
-                r0 = DFR8setpalette(im[k].haspal ? im[k].pal : NULL);
+                /* lazy (PAD bit 14): the palette stays in effect, so it is only set when it differs from the one in effect */
+                static unsigned char lastpal[768];
+                static int           lasthas = 0;
+                int same = (im[k].haspal == lasthas) && (!im[k].haspal || !memcmp(lastpal, im[k].pal, 768));
+                if (!((PAD >> 14) & 1) || !same) r0 = DFR8setpalette(im[k].haspal ? im[k].pal : NULL);
+                lasthas = im[k].haspal;
+                if (im[k].haspal) memcpy(lastpal, im[k].pal, 768);
                 r1 = DFR8addimage(FN, im[k].data, im[k].x, im[k].y, (uint16)(im[k].comp == 1 ? COMP_RLE : 0));
                 printf("%s w dfr8 %d %d %d ref=%d\n", ID, k, r0, r1, (int)DFR8lastref());
             }
             else {
-                r0 = DF24setil(im[k].il);
+                static int lastil = 0;     /* the interlace set stays in effect for the following 24-bit images */
+                if (!((PAD >> 14) & 1) || im[k].il != lastil) r0 = DF24setil(im[k].il);
+                lastil = im[k].il;
                 r1 = DF24addimage(FN, im[k].data, im[k].x, im[k].y);
                 printf("%s w df24 %d %d %d ref=%d\n", ID, k, r0, r1, (int)DF24lastref());
             }
@@ -1003,6 +1012,28 @@ static void run_case(const char *dir)
         PAD       = (int)nextl();
         int   n   = (int)nextl();
         wr_sds(w, n, pre, ed);
+        sds_readers(FN, "dsnvg", dir);
+        dump_recs(FN);
+    }
+    else if (!strcmp(kind, "dfsdseq")) {
+        /* a session of the single-file SDS writer, call by call, without any reset the case does not ask for */
+        int   nops = (int)nextl(), rank = 0;
+        int32 dims[8] = {0}, nt = DFNT_FLOAT32;
+        unsigned char *b1 = malloc(1 << 16), *b2 = malloc(1 << 16);
+        char  l[64], u[64], f[64];
+        for (int i = 0; i < nops; i++) {
+            char *op = next();
+            int   r  = -9;
+            if (op[0] == 'D') { rank = (int)nextl(); for (int j = 0; j < rank; j++) dims[j] = (int32)nextl(); r = DFSDsetdims(rank, dims); }
+            else if (op[0] == 'N') { nt = (int32)nextl(); r = DFSDsetNT(nt); }
+            else if (op[0] == 'S') { int d = (int)nextl(); char *h = next(); if (h[0] == '-') r = DFSDsetdimscale(d + 1, dims[d], NULL); else { unhex(h, b1); r = DFSDsetdimscale(d + 1, dims[d], b1); } }
+            else if (op[0] == 'T') { unhexs(next(), l); unhexs(next(), u); unhexs(next(), f); r = DFSDsetdatastrs(l, u, f, ""); }
+            else if (op[0] == 'X') { int d = (int)nextl(); unhexs(next(), l); unhexs(next(), u); unhexs(next(), f); r = DFSDsetdimstrs(d + 1, l, u, f); }
+            else if (op[0] == 'R') { unhex(next(), b1); unhex(next(), b2); r = DFSDsetrange(b1, b2); }
+            else if (op[0] == 'A') { unhex(next(), b1); r = DFSDadddata(FN, rank, dims, b1); }
+            else if (op[0] == 'C') { r = DFSDclear(); }
+            printf("%s w seq %d %s %d\n", ID, i, op, r);
+        }
         sds_readers(FN, "dsnvg", dir);
         dump_recs(FN);
     }
